@@ -9,17 +9,19 @@ points, constructor arguments) of BOTH code generators.
     arguments for the offending shapes; a reproduced difference is reported as failing-input."""
 import time
 
+from . import c05_cdglue as G
 from . import c05_cdtpl as X
 from . import c06_abi as A
 from . import coqrun
 from .common import COQ
 
-STATIC = ["C05/TplDecC.v", "C05/CxEval.v", "C05/CdRun.v", "C05/CdImpl.v", "C05/CdImplProofs.v", "C05/PropsC05Cd.v"]
+STATIC = ["C05/TplDecC.v", "C05/TplGlueC.v", "C05/CxEval.v", "C05/CdRun.v", "C05/CdImpl.v", "C05/CdImplProofs.v", "C05/PropsC05Cd.v"]
 # every file the static ones import outside Base (content keys for .vo reuse)
 DEPS = ["C06/Abi.v", "C06/AbiLemmas.v", "C06/Roundtrip.v", "C06/ZeroPad.v", "C06/Sexp.v", "C06/TplEncL.v", "C06/TplEncV.v",
         "C06/SxEval.v", "C06/Widen.v", "C06/VxEval.v", "C05/Dec.v", "C05/DecProofs.v", "C05/ReadsInside.v", "C05/DecImpl.v",
         "C05/DecImplProofs.v", "C05/TplDecL.v", "C05/TplDecV.v", "C05/Harness.v"]
-GEN = ["C05/GenTplDecCL.v", "C05/GenTplDecCV.v"]
+GEN = ["C05/GenTplDecCL.v", "C05/GenTplDecCV.v", "C05/GenGlueC.v"]
+TIES = ["C05/TieDecC.v", "C05/TieGlueC.v"]
 INITCODE_LEN = 37
 
 
@@ -36,23 +38,25 @@ def build(ctx):
     out["static"] = ctx.coq_build_cached(STATIC, deps=DEPS)
     if not out["static"]["ok"] and "inconsistent assumptions" in str(out["static"].get("out")):
         # a dependency's .vo was rebuilt (not byte-identically) after ours: drop the reuse keys and compile again
-        _drop_keys(STATIC + ["C05/TieDecC.v"] + GEN)
+        _drop_keys(STATIC + TIES + GEN)
         out["static"] = ctx.coq_build_cached(STATIC, deps=DEPS)
     try:
         X.write_gen(COQ)
+        _, skipped = G.write_gen(COQ)
+        ctx.corr["cd_glue_shapes_skipped"] = len(skipped)
     except Exception as e:  # noqa
         out["err"] = f"calldata/code template export failed: {type(e).__name__}: {e}"[:500]
         return out
-    out["gen"] = ctx.coq_build_parallel(GEN, deps=["C06/Abi.v", "C06/Sexp.v"], workers=2)
+    out["gen"] = ctx.coq_build_parallel(GEN, deps=["C06/Abi.v", "C06/Sexp.v"], workers=3)
     if not out["gen"]["ok"]:
         out["err"] = "observed calldata/code template tables do not compile: " + str(out["gen"].get("out"))[-300:]
         return out
     if out["static"]["ok"] or "TplDecC" not in str(out["static"].get("file", "")):
-        out["tie"] = ctx.coq_build_cached(["C05/TieDecC.v"], deps=DEPS + ["C05/TplDecC.v"] + GEN)
+        out["tie"] = ctx.coq_build_parallel(TIES, deps=DEPS + ["C05/TplDecC.v", "C05/TplGlueC.v"] + GEN, workers=2)
         if not out["tie"]["ok"] and "inconsistent assumptions" in str(out["tie"].get("out")):
-            _drop_keys(["C05/TieDecC.v"] + GEN)
-            ctx.coq_build_parallel(GEN, deps=["C06/Abi.v", "C06/Sexp.v"], workers=2)
-            out["tie"] = ctx.coq_build_cached(["C05/TieDecC.v"], deps=DEPS + ["C05/TplDecC.v"] + GEN)
+            _drop_keys(TIES + GEN)
+            ctx.coq_build_parallel(GEN, deps=["C06/Abi.v", "C06/Sexp.v"], workers=3)
+            out["tie"] = ctx.coq_build_parallel(TIES, deps=DEPS + ["C05/TplDecC.v", "C05/TplGlueC.v"] + GEN, workers=2)
     return out
 
 
@@ -244,6 +248,94 @@ def kw_entry_sizes(ctx):
     return n, bad
 
 
+IFACE_SRC = """
+interface Foo:
+    def bar(): nonpayable
+
+struct S:
+    a: uint256
+    b: Foo
+
+@external
+def f0(x: Foo) -> address:
+    return x.address
+
+@external
+def f1(x: DynArray[Foo, 3]) -> address:
+    return x[0].address
+
+@external
+def f2(x: Foo[2]) -> address:
+    return x[1].address
+
+@external
+def f3(x: S) -> address:
+    return x.b.address
+
+@external
+def f4(b: Bytes[100]) -> address:
+    y: Foo = abi_decode(b, Foo)
+    return y.address
+
+@external
+def f5(x: Foo, k: Foo = empty(Foo)) -> address:
+    return k.address
+"""
+
+
+def iface_checks(ctx):
+    """Interface-typed values (ABI address, 160 bits): (a) the needs_clamp model vs BOTH real copies on the real argument
+    types the front end builds for the glue family (interfaces at top level, in arrays, DynArrays, structs); (b) EVM, core
+    configurations: arguments of interface type at top level / in a DynArray / static array / struct / keyword argument
+    and abi_decode(b, Foo): the canonical word is accepted and observed, a word with any bit >= 160 set must revert
+    (dec_follow TAddress rejects it).  Returns (#evaluations, nc mismatches, failing inputs)."""
+    from . import configs as C
+    from .evm import Chain
+    rows = G.real_needs_clamp()
+    model = coqrun.eval_zlists("From Verif Require Import C06.Abi C05.Dec.\n", ["[" + "; ".join(
+        f"(if needs_clamp {A.coq_ty(G.strip(t))} then 1 else 0)" for t, _, _, _ in rows) + "]"], "c05ifnc", shard=1)[0]
+    mism = [{"type": A.eth_ty(G.strip(t)), "vyper_type": vs, "model": m, "legacy": l, "venom": v}
+            for (t, vs, l, v), m in zip(rows, model) if (l, v) != (m, m)]
+    n = 2 * len(rows)
+    a = 0x00112233445566778899AABBCCDDEEFF00112233
+    w = lambda x: x.to_bytes(32, "big")   # noqa
+    dirty = [a | (1 << 160), a | (1 << 255), 1 << 160, (1 << 256) - 1]
+    shapes = {
+        "f0(address)": lambda x: w(x),
+        "f1(address[])": lambda x: w(32) + w(1) + w(x),
+        "f2(address[2])": lambda x: w(a) + w(x),
+        "f3((uint256,address))": lambda x: w(7) + w(x),
+        "f4(bytes)": lambda x: w(32) + w(32) + w(x),
+        "f5(address,address)": lambda x: w(a) + w(x),
+    }
+    bad = []
+    for cfg in C.core_configs():
+        try:
+            c = C.compile_src(IFACE_SRC, cfg, formats=("bytecode", "method_identifiers"))
+        except Exception as e:  # noqa
+            ctx.log(f"iface check: {cfg.name}: {type(e).__name__}: {e}"[:200])
+            continue
+        ch = Chain(cfg.evm)
+        addr = ch.deploy(bytes.fromhex(c["bytecode"][2:]))
+        for sg, mk in shapes.items():
+            sel = int(c["method_identifiers"][sg], 16).to_bytes(4, "big")
+            for x in [a] + dirty:
+                r = ch.call(addr, sel + mk(x))
+                n += 1
+                if x == a and (not r.ok or r.out != w(a)):
+                    txt = "canonical interface-typed (address) value rejected or observed differently"
+                elif x != a and r.ok:
+                    txt = ("a word with bits >= 160 set was accepted as an interface-typed (address) value: the observed "
+                           "value is outside its declared type")
+                else:
+                    continue
+                if len(bad) < 3:
+                    bad.append({"source": IFACE_SRC, "config": cfg.name, "entry": sg, "how": "call selector(entry) ++ input",
+                                "input_hex": mk(x).hex(), "observed_ok": r.ok, "observed_out": r.out.hex(),
+                                "model": "=" if x == a else "R", "text": txt})
+    return n, mism, bad
+
+
 def run(ctx):
     """the whole part; returns the number of evaluations"""
     t0 = time.time()
@@ -260,6 +352,9 @@ def run(ctx):
     if b["err"] is None and not b["tie"]["ok"]:
         try:
             diff = X.differing_shapes()
+            for k, v in G.differing_shapes().items():
+                if v:
+                    diff["obs_glue_" + k] = v
         except Exception as e:  # noqa
             diff = {"(could not localise)": [str(e)[:200]]}
     problems = bool(bad) or b["err"] is not None or not b["static"]["ok"] or not b["tie"]["ok"]
@@ -282,6 +377,19 @@ def run(ctx):
             ctx.violation("failing-input", "kw entry point: " + d.pop("text"), d)
     except Exception as e:  # noqa
         ctx.violation("correspondence-broken", "keyword-argument entry size check could not run", {"error": f"{type(e).__name__}: {e}"[:400]})
+    try:
+        ni, mism, ibad = iface_checks(ctx)
+        n += ni
+        ctx.corr["iface_evaluations"] = ni
+        for d in ibad:
+            ctx.violation("failing-input", "interface-typed value: " + d.pop("text"), d)
+        if mism:
+            ctx.violation("correspondence-broken", "needs_clamp model differs from a real copy on a real front-end type "
+                          "(theorem needs_clamp_complete no longer speaks about the code)",
+                          {"mismatches": mism[:10], "search": "interface-typed arguments ran on the EVM" +
+                           ("; failing input reported" if ibad else "; no failing input")})
+    except Exception as e:  # noqa
+        ctx.violation("correspondence-broken", "interface-typed value check could not run", {"error": f"{type(e).__name__}: {e}"[:400]})
     srch = "EVM differential on the offending shapes ran" + ("; failing input reported" if found else "; no failing input")
     if b["err"] is not None:
         ctx.violation("translator-rejected", b["err"], {"error": b["err"], "search": srch})
@@ -291,10 +399,10 @@ def run(ctx):
                       {"theorem": s.get("failed_lemma"), "file": s.get("file"), "coq_output": (s.get("out") or "")[-1500:], "search": srch})
     if b["err"] is None and not b["tie"]["ok"]:
         ctx.violation("correspondence-broken",
-                      f"{b['tie'].get('failed_lemma') or 'TieDecC'}: emitted calldata/code-source decoder IR differs from the "
-                      f"template model (TplDecC.v) in {len(diff)} of 8 tables",
+                      f"{b['tie'].get('failed_lemma') or 'TieDecC/TieGlueC'}: emitted calldata/code-source decoder IR differs from the "
+                      f"template / entry-glue model (TplDecC.v, TplGlueC.v) in {len(diff)} of 10 tables",
                       {"theorem": b["tie"].get("failed_lemma"), "differing": {k: v[:10] for k, v in diff.items()},
-                       "replay": "tools/vlib/c05_cdtpl.py export_legacy / export_venom on the listed shapes", "search": srch})
+                       "replay": "tools/vlib/c05_cdtpl.py export_legacy / export_venom, c05_cdglue.py legacy_glue / venom_glue on the listed shapes", "search": srch})
     for x in bad[:3]:
         x = dict(x)
         x.pop("py_type")
@@ -302,6 +410,12 @@ def run(ctx):
                       "with the acceptance model dec_follow (theorems cd_sound_* no longer speak about the emitted code)",
                       dict(x, search=srch))
     ctx.extra["cd_part_seconds"] = round(time.time() - t0, 1)
+    ctx.trusted.append("coq/C05/CxEval.v: evaluator for the observed calldata/code decoder templates (EVM semantics of "
+                       "calldataload / calldatacopy / codecopy as modelled there)")
+    ctx.assumptions += ["cd_sound_lv / code_sound_lv / cd_impl_refines_model: byte region shorter than 2^64, argument types with "
+                        "bound * element head < 2^64 (fits)",
+                        "calldata/code decoder templates: tied syntactically (whole shape family, both generators, -O gas and "
+                        "legacy -O codesize, cancun) and by execution in Coq; template generator = cdec is not proved"]
     return n
 
 
